@@ -17,7 +17,7 @@ RULE = ("one evaluation = one phone string (token vs independent HMAC-SHA1), one
 ASSUMPTIONS = ["the three token constants are frozen copies of the pinned tree (data/reg_constants.json), not a second origin",
                "text values are valid unicode (no lone surrogates); nothing is sent anywhere (preview mode, audit hook)",
                "hmac/urllib.parse/cryptography are trusted"]
-REQUIRED = ["same_phone_other_cc", "two_env_tokens", "request_resends", "concurrent_token_rounds", "token_yields", "token_cases", "urlencode_cases", "encrypt_cases", "request_objects", "escaped_values"]
+REQUIRED = ["first_use_processes", "same_phone_other_cc", "two_env_tokens", "request_resends", "concurrent_token_rounds", "token_yields", "token_cases", "urlencode_cases", "encrypt_cases", "request_objects", "escaped_values"]
 
 DATA = os.path.join(os.path.dirname(os.path.dirname(os.path.dirname(os.path.abspath(__file__)))), "data")
 SAFE = set("ABCDEFGHIJKLMNOPQRSTUVWXYZabcdefghijklmnopqrstuvwxyz0123456789.")
@@ -318,7 +318,7 @@ def two_envs(acc, seed, sh, n):
         acc.case(["envs", ph], nontrivial=True)
 
 
-def concurrent_tokens(acc, seed, sh, rounds):
+def concurrent_tokens(acc, seed, sh, rounds, first_use=False):
     """Tokens for different numbers computed at the same time on the process-wide environment object (two registrations, or a
     registration next to a running stack): each caller must get the token of its own number."""
     import random
@@ -341,7 +341,8 @@ def concurrent_tokens(acc, seed, sh, rounds):
                     return
                 if got != ref_token(ph):
                     wrong.append(ph)
-        yi = inject.YieldInjector(random.Random(r.randrange(1 << 30)), ("yowsup/env/env_android.py", "yowsup/env/env.py"), p=r.choice([0.1, 0.3, 0.6]))
+        yi = inject.YieldInjector(random.Random(r.randrange(1 << 30)), ("yowsup/env/env_android.py", "yowsup/env/env.py"), p=(0.6 if first_use else r.choice([0.1, 0.3, 0.6])),
+                                  p_long=(0.5 if first_use else 0.1))
         ths = [threading.Thread(target=body, args=(phones[i],), name="verif-token-%d" % i) for i in range(k)]
         with yi:
             for t in ths:
@@ -365,13 +366,22 @@ def shards(tier, seed, nworkers):
     url = 80000 if tier == "quick" else 800000
     encn = 2000 if tier == "quick" else 12000
     reqn = 240 if tier == "quick" else 1500
-    return [{"kind": "mix", "shard": i, "tok": tok // n, "url": url // n, "enc": encn // n, "req": reqn // n, "ctok": 6 if tier == "quick" else 120} for i in range(n)]
+    specs = [{"kind": "mix", "shard": i, "tok": tok // n, "url": url // n, "enc": encn // n, "req": reqn // n, "ctok": 6 if tier == "quick" else 120} for i in range(n)]
+    # tokens computed at the same time as the very first thing a process does with the environment (whatever is built lazily on
+    # first use is then being built while the others already ask): one fresh process per repetition
+    for k in range(3 if tier == "quick" else 48):
+        specs.append({"kind": "first-use", "shard": 100 + k})
+    return specs
 
 
 def run(spec, acc):
     from yowsup.env.env_android import AndroidYowsupEnv
     from yowsup.common.http.warequest import WARequest as W
     seed, sh = spec["seed"], spec["shard"]
+    if spec["kind"] == "first-use":
+        acc.count("first_use_processes")
+        concurrent_tokens(acc, seed, sh, 1, first_use=True)
+        return
     envo = AndroidYowsupEnv()
     # anchor: every digit string length 1..20 once per shard
     for L in range(1, 21):
